@@ -30,8 +30,18 @@ OVERRIDES = {1: "ov/k1", 2: "ov/k2", 3: "ovk3"}
 MKEYS = {1: "log", 2: "log.extra"}
 
 
+PART0 = 1000          # tags >= PART0 are partitions (outside the Lean op language: such histories run against the dictionary only)
+
+
+def part_items(B):
+    j = B - PART0
+    return {"k1": j % 3 + 1, "k2": j % 2 + 10, "id": j}
+
+
 def value_class(B):
     """tag -> (class, payload bytes); deterministic"""
+    if B >= PART0:
+        return "part", 0
     classes = ["int", "bytes", "bytes", "str", "arr", "bytes", "list", "arr"]
     cls = classes[B % len(classes)]
     n = [0, 20, 150, 400, 900, 3000][(B // len(classes)) % 6]
@@ -41,6 +51,10 @@ def value_class(B):
 def make_value(B):
     import numpy as np
     cls, n = value_class(B)
+    if cls == "part":
+        from twosigma.memento.partition import InMemoryPartition
+        it = part_items(B)
+        return InMemoryPartition({"k1": make_value(it["k1"]), "k2": make_value(it["k2"]), "id": it["id"]})
     if cls == "int":
         return 1000 + B
     if cls == "bytes":
@@ -62,6 +76,16 @@ def tag_of(obj):
         return None
     if isinstance(obj, bool):
         return -1
+    from twosigma.memento.partition import Partition
+    if isinstance(obj, Partition):
+        try:
+            j = obj.get("id")
+            it = part_items(PART0 + j)
+            if sorted(obj.list_keys()) == ["id", "k1", "k2"] and tag_of(obj.get("k1")) == it["k1"] and tag_of(obj.get("k2")) == it["k2"]:
+                return PART0 + j
+            return -2
+        except Exception as e:
+            return "err:" + type(e).__name__
     if isinstance(obj, int):
         return obj - 1000
     if isinstance(obj, bytes):
@@ -353,7 +377,7 @@ def run_history(cfg, ops, use_model=True, root=None, scan=False, hooks=None):
     returns dict(oracle=[...], mismatch=[...], transcript=[...], integrity=[...])"""
     w = World(cfg, root=root)
     oracle = DictOracle()
-    model = Model("store") if use_model else None
+    model = Model("store") if use_model and not has_partition(ops) else None
     res = dict(oracle=[], mismatch=[], transcript=[], integrity=[])
     twin = None
     try:
@@ -445,7 +469,11 @@ CONFIGS = [
 ]
 
 
-def gen_ops(rng, length, fns=None, override_rate=0.3, nvals=40):
+def has_partition(ops):
+    return any(o[0] == "memoize" and o[4] is not None and o[4] >= PART0 for o in ops)
+
+
+def gen_ops(rng, length, fns=None, override_rate=0.3, nvals=40, part_rate=0.0):
     fns = fns or list(FNS)
     ops = []
     used_vals = []
@@ -461,6 +489,8 @@ def gen_ops(rng, length, fns=None, override_rate=0.3, nvals=40):
                 B = rng.choice(used_vals)           # same bytes again: dedup / sharing across functions
             else:
                 B = rng.randrange(1, nvals)
+                if rng.random() < part_rate:
+                    B = PART0 + rng.randrange(0, 8)
                 used_vals.append(B)
             if rng.random() < 0.08:
                 B = None
